@@ -34,3 +34,34 @@ Print Assumptions C19_enum_visit_value_tag.
 Theorem C19_enum_visit_unknown : forall vals v, enum_visit vals v = None <-> ~ In v vals.
 Proof. exact enum_visit_none. Qed.
 Print Assumptions C19_enum_visit_unknown.
+
+From Sbepp Require Import CursorStop CursorStopProofs.
+
+(* "it stops as soon as a callback returns true": a visitor whose callback
+   number k+1 returns true sees exactly the first k callbacks of the complete
+   visit and no later one -- for ALL buffers and tables *)
+Theorem C19_stop_yields_prefix : stmt_stop_prefix.
+Proof. exact stop_prefix. Qed.
+Print Assumptions C19_stop_yields_prefix.
+
+Theorem C19_no_stop_is_complete_visit : stmt_stop_beyond.
+Proof. exact stop_beyond. Qed.
+Print Assumptions C19_no_stop_is_complete_visit.
+
+Theorem C19_completed_stop_run_is_complete_visit : stmt_stop_done_complete.
+Proof. exact stop_done_complete. Qed.
+Print Assumptions C19_completed_stop_run_is_complete_visit.
+
+Theorem C19_stop_runs_are_prefix_ordered : stmt_stop_events_prefix_general.
+Proof. exact stop_events_prefix_general. Qed.
+Print Assumptions C19_stop_runs_are_prefix_ordered.
+
+Theorem C19_stop_budget_counts_callbacks : stmt_stop_budget_general.
+Proof. exact stop_budget_general. Qed.
+Print Assumptions C19_stop_budget_counts_callbacks.
+
+(* on the image of any well-formed value tree: the first k members / entries
+   of the declarative event list, in schema order *)
+Theorem C19_stop_on_image_is_schema_order_prefix : stmt_stop_prefix_enc.
+Proof. exact stop_prefix_enc. Qed.
+Print Assumptions C19_stop_on_image_is_schema_order_prefix.
